@@ -91,14 +91,21 @@ ASSUME PrintT(ToJson([envs |-> Envs]))
 \* every complete string, and its truncations (garbled input: must parse or raise the parse error)
 \* design-level check: the transcribed parser against the reference Python grammar, by
 \* evaluation in every environment of the box; disagreeing strings are reported
+\* environments in which the reference value is inside the model's exact bounds: the driver asks
+\* Python for the value only there (a tower of powers outside the bounds can take hours to
+\* compute and would be skipped by the judge anyway)
+EvMask(ts) == LET rv == RefValues(ts) IN
+              IF rv = << >> THEN [i \in 1..Len(Envs) |-> TRUE]
+              ELSE [i \in 1..Len(Envs) |-> ~IsUnrep(rv[i])]
 Emit == Complete =>
     /\ LET m == ModelVerdict(toks) IN
        (m.v \in {"OK", "SKIP"} \/ PrintT(ToJson([design |-> m.v, dtoks |-> toks])))
-    /\ PrintT(ToJson([toks |-> toks, garbled |-> FALSE, text |-> Text(toks, FALSE)]))
+    /\ PrintT(ToJson([toks |-> toks, garbled |-> FALSE, text |-> Text(toks, FALSE), ev |-> EvMask(toks)]))
     \* the same token string written without the blanks the lexical grammar does not need
     /\ (Text(toks, TRUE) = Text(toks, FALSE)
-        \/ PrintT(ToJson([toks |-> toks, garbled |-> FALSE, text |-> Text(toks, TRUE)])))
+        \/ PrintT(ToJson([toks |-> toks, garbled |-> FALSE, text |-> Text(toks, TRUE), ev |-> EvMask(toks)])))
     /\ (Len(toks) < 4 \/ Len(toks) > 6
         \/ PrintT(ToJson([toks |-> SubSeq(toks, 1, Len(toks) - 1), garbled |-> TRUE,
-                           text |-> Text(SubSeq(toks, 1, Len(toks) - 1), FALSE)])))
+                           text |-> Text(SubSeq(toks, 1, Len(toks) - 1), FALSE),
+                           ev |-> EvMask(SubSeq(toks, 1, Len(toks) - 1))])))
 =============================================================================
